@@ -70,6 +70,9 @@ pub struct Monitors {
     pub last_adv_wnd: u32,
     pub prev_adv_wnd: u32,
     pub fin_from_peer_seen: bool,
+    /// a FIN was delivered at a moment when everything before it had been delivered (the library
+    /// does not keep a FIN that arrives ahead of a gap; the peer has to retransmit it)
+    pub fin_in_order_seen: bool,
     // ---- retransmission discipline (C06) ----
     /// consecutive duplicate ACKs (RFC 5681 definition) seen from a peer that never sent a SACK
     pub dup_acks: u8,
@@ -124,6 +127,7 @@ impl Monitors {
             last_adv_wnd: cfg.rx_buf as u32,
             prev_adv_wnd: cfg.rx_buf as u32,
             fin_from_peer_seen: false,
+            fin_in_order_seen: false,
             dup_acks: 0,
             last_peer_ack: None,
             peer_used_sack: false,
@@ -182,7 +186,7 @@ impl Monitors {
         }
         out.push(self.unacked_inorder_bytes as u64);
         out.push(self.last_adv_wnd as u64);
-        out.push(self.fin_from_peer_seen as u64);
+        out.push(self.fin_from_peer_seen as u64 | (self.fin_in_order_seen as u64) << 1);
         out.push(self.dup_acks as u64 | (self.sack_dups as u64) << 8 | (self.peer_used_sack as u64) << 16 | (self.reset_seen as u64) << 17 | (self.fin_acked_by_peer as u64) << 18 | (self.established_seen as u64) << 19 | (self.initiator_pkt_seen as u64) << 20);
         out.push(self.last_peer_ack.map(|x| x.0 as u64 | (x.1 as u64) << 16).unwrap_or(u64::MAX));
         out.push(self.cum_acked_bytes);
@@ -292,6 +296,11 @@ impl Monitors {
             self.peer_last_wnd = h.wnd;
             if h.ptype == 1 {
                 self.fin_from_peer_seen = true;
+                if let Some(fi) = w.peer_fin_idx {
+                    if (0..fi).all(|k| w.peer_sent.contains(&k)) {
+                        self.fin_in_order_seen = true;
+                    }
+                }
             }
             // cumulative acknowledgements by the peer (only sequence numbers the endpoint has sent)
             let hi = match w.ep_hi_seq {
@@ -569,6 +578,8 @@ impl Monitors {
         let contig = w.peer_in_order() as i64; // first index not yet sent
         let fin_counts = matches!(w.peer_fin_idx, Some(fi) if fi as i64 == contig && self.fin_from_peer_seen);
         let max_ack_idx = contig - 1 + if fin_counts { 1 } else { 0 };
+        // what the endpoint must have (a FIN only once it arrived in order)
+        let must_ack_idx = contig - 1 + if fin_counts && self.fin_in_order_seen { 1 } else { 0 };
         let deliver2 = matches!(act, Some(Act::Deliver2(..)));
         self.prev_adv_wnd = self.last_adv_wnd;
         for e in &rec.emitted {
@@ -590,12 +601,12 @@ impl Monitors {
                     format!("ack_nr {} acknowledges peer packet index {}, but the peer has only sent packets up to index {} in order", e.hdr.ack, ai, max_ack_idx),
                 ));
             }
-            if w.cfg.peer_respects_window && w.reader.is_some() && ai < max_ack_idx && w.done.is_none() && !deliver2 {
+            if w.cfg.peer_respects_window && w.reader.is_some() && ai < must_ack_idx && w.done.is_none() && !deliver2 {
                 v.push(f(
                     "C04",
                     "ack-honesty",
                     "ack/understates-in-order-data",
-                    format!("a window-respecting peer has sent packets up to index {} in order, but the endpoint's ack_nr {} covers only index {}", max_ack_idx, e.hdr.ack, ai),
+                    format!("a window-respecting peer has sent packets up to index {} in order, but the endpoint's ack_nr {} covers only index {}", must_ack_idx, e.hdr.ack, ai),
                 ));
             }
             // selective ACK bits
@@ -754,12 +765,26 @@ impl Monitors {
                             }
                         }
                     }
-                    (1, _) => {
-                        if !emitted_ack {
-                            v.push(f("C07", "ack-timeliness", "ack/fin-not-acked-immediately", "a FIN arrived, no ACK in the same instant".to_string()));
-                        }
-                    }
                     _ => {}
+                }
+            }
+        }
+        // a FIN: acknowledged in the same instant, whether it is in order (the connection leaves
+        // Established with it), ahead of a gap (out of order) or a retransmission
+        let could_receive_before = rec.obs_before.as_ref().map(|o| matches!(o.state, "established" | "fin-wait-1" | "fin-wait-2")).unwrap_or(false);
+        if could_receive_before && w.reader.is_some() && transport_ok && !deliver2 && w.done.is_none() {
+            for (h, _, _) in &rec.peer_sent {
+                if h.ptype != 1 || !rec.emitted.is_empty() {
+                    continue;
+                }
+                let in_order = match w.peer_fin_idx {
+                    Some(fi) => (0..fi).all(|k| w.peer_sent.contains(&k)),
+                    None => true,
+                };
+                if in_order {
+                    v.push(f("C07", "ack-timeliness", "ack/fin-not-acked-immediately", "a FIN arrived in order, no ACK in the same instant".to_string()));
+                } else {
+                    v.push(f("C07", "ack-timeliness", "ack/out-of-order-fin-not-acked-immediately", "a FIN arrived ahead of a gap (data before it is missing), no ACK in the same instant: the sender gets no duplicate acknowledgement for it".to_string()));
                 }
             }
         }
